@@ -137,6 +137,13 @@ def rule_V1(ctx, fx):
         me = fx.self_name(fi)
         if me is None:
             continue
+        if prog.is_new_function(fi):
+            # a private helper newer than the rules is looked into from every method that calls it: its writes are
+            # judged there, together with the caller's (half of a paired write may live on either side of the call)
+            callers = [g for g in fx.tree_methods.values() if g is not fi and any(isinstance(c.func, ast.Attribute) and c.func.attr == fi.name for c in calls(g.node))]
+            if callers:
+                ctx.note("V1: %s is judged inside its callers (%s)" % (fi.qualname, ", ".join(sorted(g.name for g in callers))))
+                continue
         try:
             ex = extract(prog, _strip_breaks(fi), opaque_self_methods=NAV, copy_is_identity=False)
         except Unsupported as e:
